@@ -31,6 +31,7 @@ class Canon:
         self.why = ""
         self.kind_init_none = False
         self.env = {}      # scalar locals -> polynomial of their definition (lets are substituted, names never matter)
+        self.multi_store = None     # set by the caller: names with more than one store in the planner
 
     # ---- leaves
     def atom(self, node, pb):
@@ -151,6 +152,10 @@ class Canon:
                     else:
                         out.append(("store", key, self.triple(s.value)))
                 elif isinstance(t, ast.Name):
+                    if self.multi_store is not None and t.id in self.multi_store:
+                        # a local assigned at several places carries state along the loop: it is not a `let`, and the
+                        # planner is outside the recognised shape (UNKNOWN, never a leaf difference)
+                        self.skeleton_ok, self.why = False, f"local `{t.id}` is assigned more than once"
                     self.env[t.id] = self.pb().poly(s.value)
                 else:
                     self.skeleton_ok, self.why = False, f"unrecognised store {ast.unparse(s)}"
@@ -274,7 +279,7 @@ def diff(a, b, path=""):
     return [(path, a, b, "leaf")]
 
 
-def run(chk, ctx):
+def rec_rules(chk, ctx):
     chk.describe("C16.REC", "memoised and tabulated planner are the same recurrence (canonical case lists agree leaf by leaf)")
     chk.describe("C16.ARMS", "both arms of every planner selection site receive equal arguments and bind the same targets")
     chk.describe("C16.COST", "optimal_steps_mixed has the same cost recurrence (information for C06)")
@@ -308,6 +313,90 @@ def run(chk, ctx):
         if isinstance(x, ast.Assign) and isinstance(x.targets[0], ast.Subscript) and isinstance(x.value, ast.Name) \
                 and consts.get(x.value.id) == "StepType.NONE" and ast.unparse(x.targets[0]).replace(" ", "") == "schedule[:,:,0]":
             ct.kind_init_none = True
+    def multi(fn_, skip=()):
+        """names that are not `let`s: assigned more than once *and* read where the value may come from another branch
+        or from an earlier loop iteration (a store in a nested block that does not contain the read, or a store later in
+        a loop that also contains the read)"""
+        pos = lambda n: (n.lineno, n.col_offset)
+        stores, loads = {}, {}
+        chain = {}      # id(node) -> tuple of enclosing compound statements (ids), outermost first
+
+        def walk(stmts, anc):
+            for st_ in stmts:
+                for x in ast.walk(st_) if not isinstance(st_, (ast.If, ast.For, ast.While)) else \
+                        [y for h in (getattr(st_, "test", None), getattr(st_, "iter", None), getattr(st_, "target", None)) if h is not None
+                         for y in ast.walk(h)]:
+                    if isinstance(x, ast.Name):
+                        (stores if isinstance(x.ctx, ast.Store) else loads).setdefault(x.id, []).append((x, anc, st_))
+                if isinstance(st_, (ast.If, ast.For, ast.While)):
+                    walk(st_.body, anc + ((st_, "body"),))
+                    walk(st_.orelse, anc + ((st_, "orelse"),))
+        walk(fn_.body, ())
+        bad = set()
+        for name, sts in stores.items():
+            if name in skip or len(sts) < 2:
+                continue
+            for l_, lanc, lst in loads.get(name, []):
+                before = [s_ for s_ in sts if pos(s_[0]) < pos(l_)]
+                near_loops = set()
+                if before:
+                    near = max(before, key=lambda s_: pos(s_[0]))
+                    if near[1] != lanc[:len(near[1])]:
+                        bad.add(name)       # the nearest store sits in a block that does not contain the read
+                    near_loops = {id(a[0]) for a in near[1] if isinstance(a[0], (ast.For, ast.While))}
+                for s_, sanc, sst in sts:
+                    if pos(s_) > pos(l_):
+                        loops_l = {id(a[0]) for a in lanc if isinstance(a[0], (ast.For, ast.While))}
+                        loops_s = {id(a[0]) for a in sanc if isinstance(a[0], (ast.For, ast.While))}
+                        if isinstance(lst, (ast.For, ast.While)):
+                            loops_l.add(id(lst))
+                        if (loops_l & loops_s) - near_loops:
+                            bad.add(name)   # a later store in a loop that also contains the read, and no store of this
+                            #                 iteration comes first
+        return bad
+    cm.multi_store, ct.multi_store = multi(memo, ("m",)), multi(tab)
+    # ---- acceptance operators (tie-breaking), independent of how the best candidate is kept (table entry, result tuple,
+    # scalar locals): in source order, every test `[<unset> or] cand OP best` where `cand` is a local holding a candidate
+    # cost (assigned from an expression with a planner/table cost in it) - recorded as (inside the candidate loop?, OP)
+    def acceptance(fn_):
+        cands = set()
+        for x in ast.walk(fn_):
+            if isinstance(x, ast.Assign) and len(x.targets) == 1 and isinstance(x.targets[0], ast.Name) and \
+                    any(isinstance(y, ast.Subscript) for y in ast.walk(x.value)) and isinstance(x.value, ast.BinOp):
+                cands.add(x.targets[0].id)
+        out = []
+
+        def visit(stmts, in_loop):
+            for st_ in stmts:
+                if isinstance(st_, ast.If):
+                    for t in ast.walk(st_.test):
+                        if isinstance(t, ast.Compare) and len(t.ops) == 1 and type(t.ops[0]) in (ast.Lt, ast.LtE, ast.Gt, ast.GtE):
+                            l, r, op = t.left, t.comparators[0], type(t.ops[0])
+                            if isinstance(l, ast.Name) and l.id in cands and not isinstance(r, ast.Constant):
+                                out.append((in_loop, OPN[op], st_))
+                            elif isinstance(r, ast.Name) and r.id in cands and not isinstance(l, ast.Constant):
+                                out.append((in_loop, OPN[{ast.Lt: ast.Gt, ast.LtE: ast.GtE, ast.Gt: ast.Lt, ast.GtE: ast.LtE}[op]], st_))
+                    visit(st_.body, in_loop)
+                    visit(st_.orelse, in_loop)
+                elif isinstance(st_, (ast.For, ast.While)):
+                    # the candidate loop: the innermost loop whose body assigns a candidate
+                    def has_cand(node):
+                        return any(isinstance(y, ast.Assign) and isinstance(y.targets[0], ast.Name) and y.targets[0].id in cands
+                                   for y in ast.walk(node))
+                    nested = [y for b_ in st_.body for y in ast.walk(b_) if isinstance(y, (ast.For, ast.While))]
+                    innermost = has_cand(st_) and not any(has_cand(y) for y in nested)
+                    visit(st_.body, innermost)
+        visit(fn_.body, False)
+        return out
+    am, at = acceptance(memo), acceptance(tab)
+    sig = lambda a: [(x[0], x[1]) for x in a]
+    if am and at:
+        same = sig(am) == sig(at)
+        definite = len(am) == len(at)
+        chk.decide("C16.REC", "mixed#acceptance", True if same else (False if definite else None),
+                   f"candidate acceptance tests (in the candidate loop?, operator): memoised {sig(am)} vs tabulated {sig(at)}"
+                   + ("" if same else ": ties between candidates are broken differently, the two planners prescribe different steps"),
+                   rel=REL, node=(at[0][2] if at else tab))
     # memo: the if-chain after the validation guards
     mbody = cm.stmts(memo.body)
     # tab: row-1 prelude + innermost n_i loop body
@@ -415,6 +504,22 @@ def run(chk, ctx):
             chk.decide("C16.REC", "mixed#clamp", True if s_free(stmt[2][0][1]) else False,
                        "result of the `n <= s + 1` case does not mention s: the memoised planner's clamp s := min(s, n-1) "
                        "and the table's unclamped column agree", rel=REL, node=core[1])
+
+
+def run(chk, ctx):
+    rec_rules(chk, ctx)
+    arms_rules(chk, ctx)
+
+
+def arms_rules(chk, ctx):
+    repo = ctx.repo
+    mod = repo.module(REL).tree
+    consts = {}
+    for n in mod.body:
+        if isinstance(n, ast.Assign) and len(n.targets) == 1 and isinstance(n.targets[0], ast.Name) and isinstance(n.value, ast.Call) \
+                and getattr(n.value.func, "id", None) == "int" and n.value.args and isinstance(n.value.args[0], ast.Attribute) \
+                and getattr(n.value.args[0].value, "id", None) == "StepType":
+            consts[n.targets[0].id] = "StepType." + n.value.args[0].attr
     # ---- ARMS
     rel_i, owner, it_fn = ctx.model.generator("MixedCheckpointSchedule")
     chk.functions.add(f"mixed.{owner.name}._iterator")
